@@ -517,16 +517,9 @@ func (pool *BlockPool) commitDone(blkNum uint32, C uint32, N uint32) (uint32, bo
 		// check consensus with endorse sigs
 		var emptyCnt uint32
 		endorseCnt := make(map[uint32]uint32) // proposer -> endorsed-cnt
-		for endorser, eSigs := range candidate.EndorseSigs {
-			// check if from endorser
-			if !pool.server.isEndorser(blkNum, endorser) {
-				for _, sig := range eSigs {
-					if sig.ForEmpty {
-						emptyCnt++
-					}
-				}
-			}
-
+		for _, eSigs := range candidate.EndorseSigs {
+			// every participant (endorser or not) is counted exactly once,
+			// EndorseSigs is indexed by participant
 			for _, sig := range eSigs {
 				if sig.ForEmpty {
 					emptyCnt++
